@@ -203,7 +203,100 @@ pub fn run_mutex(ctx: &Ctx) {
     ctx.run_prop_opts("real-mutex", ctx.cases(150, 6000), 6, real_case(false), |c| tolerant(run_real(c, false), ctx));
 }
 
+/// "herd": N reader threads are parked behind one held write guard (N in the hundreds: more than any small
+/// constant a hand-off could be limited to); the guard is released once; every read() must return. Definitive
+/// observation: readers that have not returned are all parked in an untimed futex wait although the lock is free.
+#[derive(Debug, Clone, Serialize, Deserialize)]
+pub struct HerdCase {
+    pub readers: u16,
+}
+
+fn run_herd(c: &HerdCase) -> CaseResult {
+    let n = c.readers.clamp(1, 2000) as usize;
+    let rwlock = Arc::new(tiny_std::sync::RwLock::new(0u64));
+    let done = Arc::new(AtomicU32::new(0));
+    let tids = Arc::new(std::sync::Mutex::new(Vec::<i32>::new()));
+    let guard = rwlock.write();
+    let mut handles = Vec::new();
+    for _ in 0..n {
+        let (rwlock, done, tids) = (rwlock.clone(), done.clone(), tids.clone());
+        let h = std::thread::Builder::new().stack_size(64 * 1024).spawn(move || {
+            tids.lock().unwrap().push(unsafe { libc::syscall(libc::SYS_gettid) } as i32);
+            let g = rwlock.read();
+            std::hint::black_box(*g);
+            drop(g);
+            done.fetch_add(1, Ordering::SeqCst);
+        });
+        match h {
+            Ok(h) => handles.push(h),
+            Err(_) => break,
+        }
+    }
+    let n = handles.len();
+    // wait until every reader is parked (bounded; readers still on their way only make the herd smaller)
+    let t0 = Instant::now();
+    while t0.elapsed() < Duration::from_secs(5) {
+        let t = tids.lock().unwrap().clone();
+        if t.len() == n && all_parked_in_futex(&t) {
+            break;
+        }
+        std::thread::sleep(Duration::from_millis(2));
+    }
+    let parked_all = {
+        let t = tids.lock().unwrap().clone();
+        t.len() == n && all_parked_in_futex(&t)
+    };
+    drop(guard);
+    let t1 = Instant::now();
+    let mut stuck = false;
+    while (done.load(Ordering::SeqCst) as usize) < n {
+        std::thread::sleep(Duration::from_millis(2));
+        if t1.elapsed() > Duration::from_secs(3) {
+            let t = tids.lock().unwrap().clone();
+            let left: Vec<i32> = t.iter().copied().filter(|tid| std::path::Path::new(&format!("/proc/self/task/{tid}")).exists()).collect();
+            if !left.is_empty() && all_parked_in_futex(&left) {
+                std::thread::sleep(Duration::from_millis(300));
+                if all_parked_in_futex(&left) && (done.load(Ordering::SeqCst) as usize) < n {
+                    stuck = true;
+                    break;
+                }
+            }
+            if t1.elapsed() > Duration::from_secs(30) {
+                break;
+            }
+        }
+    }
+    let finished = done.load(Ordering::SeqCst) as usize;
+    if stuck {
+        // the parked threads are leaked; the worker process ends soon after
+        return Err(Failure::new("RwLock|real-threads|lost wake-up: readers still parked after the write guard was released", format!("{n} readers were parked behind a write guard; after its release {finished} returned from read(), the other {} are all parked in futex(FUTEX_WAIT) without timeout while the lock is free", n - finished)));
+    }
+    if finished < n {
+        return Err(Failure::new("RwLock|real-threads|inconclusive-timeout", "readers did not finish within 30 s but are not all parked".to_string()));
+    }
+    for h in handles {
+        let _ = h.join();
+    }
+    let mut rep = CaseReport::new();
+    rep.nontrivial = true;
+    rep.class_if(parked_all, "whole-herd-parked-before-the-release");
+    rep.class_if(n > 256, "more-than-256-readers-parked");
+    Ok(rep)
+}
+
 pub fn run_rwlock(ctx: &Ctx) {
+    if ctx.worker == 2 || ctx.worker == 3 {
+        if let Some(c) = ctx.replay_case::<HerdCase>("real-rwlock-herd") {
+            ctx.run_one("real-rwlock-herd", &c, || tolerant(run_herd(&c), ctx));
+        } else if !ctx.is_replay() {
+            for readers in if ctx.worker == 2 { [40u16, 300] } else { [257u16, 700] } {
+                let c = HerdCase { readers };
+                if !ctx.run_one("real-rwlock-herd", &c, || tolerant(run_herd(&c), ctx)) {
+                    break;
+                }
+            }
+        }
+    }
     if ctx.worker >= 2 {
         return;
     }
